@@ -146,6 +146,13 @@ def _solve_group(cb, group, job, wd, env, gi):
     for n in (group or []):
         cmd += ['--property', n]
     rc, out, err, s = run_cmd(cmd, job.timeout, job.mem_gb, wd, env)
+    # dfcc's bookkeeping arrays scale with 2^object_bits (10x solver time from 8 to 10 bits):
+    # start with the default and raise only when cbmc says it ran out of object ids
+    ob = 8
+    while rc != 'timeout' and 'too many addressed objects' in out and ob < 12 and '--object-bits' not in cmd:
+        ob += 1
+        rc, out, err, s2 = run_cmd(cmd + ['--object-bits', str(ob)], job.timeout, job.mem_gb, wd, env)
+        s += s2
     if rc == 'timeout':
         return 'timeout', [], [], s, err[-1500:], rc
     results, msgs, status = parse_cbmc_json(out)
